@@ -1,0 +1,16 @@
+//go:build verif
+
+package lnd
+
+import (
+	"github.com/lightningnetwork/lnd/lnrpc"
+	"github.com/lightningnetwork/lnd/lnrpc/routerrpc"
+)
+
+// This file is compiled only with the "verif" build tag. It exports the
+// unexported payment request builder so that an external monitor can sweep it.
+
+// VerifBuildDirectClaimPaymentRequest calls buildDirectClaimPaymentRequest.
+func VerifBuildDirectClaimPaymentRequest(payreq string, decoded *lnrpc.PayReq, channel *lnrpc.Channel, maxTotalCLTVDelta uint32) (*routerrpc.SendPaymentRequest, error) {
+	return buildDirectClaimPaymentRequest(payreq, decoded, channel, maxTotalCLTVDelta)
+}
